@@ -20,7 +20,7 @@ Section Witness.
     mk_msg 1 zn T_DNSKEY 0 [rK; rA; mk_rr zn T_RRSIG 1 12 (RdSig sA)] [] false.
   Definition E0 : env :=
     mk_env (fun _ => 0) 1500%Z true [] (fun _ _ => LErr 0) (fun _ => LErr 0) (fun _ _ _ => LErr 0)
-           (fun _ _ _ _ => OErr EDSRecords) (fun _ _ _ => WErr EDSRecords).
+           (fun _ _ _ _ => OErr EDSRecords) (fun _ _ _ _ => WErr EDSRecords).
   (* the only honest material is 1; nothing at all was signed by the zone *)
   Definition honest0 (m : N) : Prop := m = 1.
   Definition zone_signed0 (_ : signed) : Prop := False.
